@@ -1586,12 +1586,74 @@ fn run_module_edit(ops: &[Op]) {
     let cands = me_candidates();
     let pairs: Vec<(usize, usize)> = if ops.len() == 2 { vec![(ops[0].1 as usize % cands.len(), ops[1].1 as usize % cands.len())] }
         else { (0..cands.len()).flat_map(|a| (0..cands.len()).map(move |b| (a, b))).collect() };
+    let valid = |m: &Module, i: &CardIndex| { let s = format!("{:?}", m.get_card(i)); s.starts_with("Some") || s.starts_with("Ok") };
+    // single-index edits: replace / replace back, insert / remove, and the walk (ops of length 1 replay one index)
+    let singles: Vec<usize> = if ops.len() == 1 { vec![ops[0].1 as usize % cands.len()] } else if ops.is_empty() { (0..cands.len()).collect() } else { vec![] };
+    for ii in singles.iter().copied() {
+        let (f, pth) = &cands[ii];
+        let i = CardIndex::from_slice(*f, pth);
+        let rops = [(1u8, ii as u64, 0i64)];
+        let fresh = cao_lang::compiler::Card::scalar_int(77);
+        let mut m = me_module();
+        let before = format!("{:?}", m);
+        let v = valid(&m, &i);
+        match m.replace_card(&i, fresh.clone()) {
+            Err(_) => {
+                if v { fail("module_edit", &rops, 0, format!("replace_card({f}:{pth:?}) at a valid index failed")); }
+                if format!("{:?}", m) != before { fail("module_edit", &rops, 0, format!("replace_card({f}:{pth:?}) failed but changed the module")); }
+            }
+            Ok(old) => {
+                if !v { fail("module_edit", &rops, 0, format!("replace_card({f}:{pth:?}) at an invalid index succeeded")); }
+                if format!("{:?}", m.get_card(&i).ok()) != format!("{:?}", Some(&fresh)) { fail("module_edit", &rops, 0, format!("after replace_card({f}:{pth:?}) the index does not return the new card")); }
+                let back = m.replace_card(&i, old);
+                if back.is_err() || format!("{:?}", m) != before { fail("module_edit", &rops, 0, format!("replacing back at {f}:{pth:?} does not restore the module")); }
+            }
+        }
+        let mut m = me_module();
+        let before = format!("{:?}", m);
+        match m.insert_card(&i, fresh.clone()) {
+            Err(_) => { if format!("{:?}", m) != before { fail("module_edit", &rops, 0, format!("insert_card({f}:{pth:?}) failed but changed the module")); } }
+            Ok(()) => {
+                if format!("{:?}", m.get_card(&i).ok()) != format!("{:?}", Some(&fresh)) { fail("module_edit", &rops, 0, format!("after insert_card({f}:{pth:?}) the index does not return the inserted card")); }
+                // fixed-arity cards (here: Not) keep their slots: insert_child overwrites the slot's card, which remove cannot
+                // bring back; "remove undoes insert" is demanded where the insertion added a card (list-like parents)
+                let mut n_after = 0usize; m.walk_cards(|_, _| n_after += 1);
+                let mut m0 = me_module(); let mut n_before = 0usize; m0.walk_cards(|_, _| n_before += 1);
+                if n_after == n_before + 1 { match m.remove_card(&i) {
+                    Err(_) => fail("module_edit", &rops, 0, format!("remove_card({f}:{pth:?}) right after insert_card at that index failed")),
+                    Ok(c) => if format!("{:?}", c) != format!("{:?}", fresh) || format!("{:?}", m) != before { fail("module_edit", &rops, 0, format!("remove_card({f}:{pth:?}) does not undo insert_card at the same index")); }
+                } }
+            }
+        }
+        if !v {
+            let mut m = me_module();
+            let before = format!("{:?}", m);
+            if m.remove_card(&i).is_ok() { fail("module_edit", &rops, 0, format!("remove_card({f}:{pth:?}) at an invalid index succeeded")); }
+            if format!("{:?}", m) != before { fail("module_edit", &rops, 0, format!("remove_card({f}:{pth:?}) failed but changed the module")); }
+        }
+    }
+    if ops.is_empty() {
+        // the walk reports every card once, with an index that looks up that same card
+        let mut m = me_module();
+        let mut seen: Vec<(String, String)> = vec![];
+        m.walk_cards(|i, c| seen.push((format!("{:?}", i), format!("{:?}", c))));
+        let mut n_valid = 0usize;
+        for (f, pth) in cands.iter() {
+            let i = CardIndex::from_slice(*f, pth);
+            if !valid(&m, &i) { continue; }
+            n_valid += 1;
+            let key = format!("{:?}", i);
+            let hits: Vec<&(String, String)> = seen.iter().filter(|e| e.0 == key).collect();
+            if hits.len() != 1 { fail("module_edit", &[(2u8, 0, 0)], 0, format!("walk_cards reported the card at {f}:{pth:?} {} times", hits.len())); }
+            if hits[0].1 != format!("{:?}", m.get_card(&i).unwrap()) { fail("module_edit", &[(2u8, 0, 0)], 0, format!("walk_cards reported another card for {f}:{pth:?} than get_card returns")); }
+        }
+        if seen.len() != n_valid { fail("module_edit", &[(2u8, 0, 0)], 0, format!("walk_cards reported {} cards, the module has {}", seen.len(), n_valid)); }
+    }
     for (ia, ib) in pairs {
         let (fa, pa) = &cands[ia]; let (fb, pb) = &cands[ib];
         let a = CardIndex::from_slice(*fa, pa); let b = CardIndex::from_slice(*fb, pb);
         let mut m = me_module();
         let before = format!("{:?}", m);
-        let valid = |m: &Module, i: &CardIndex| { let s = format!("{:?}", m.get_card(i)); s.starts_with("Some") || s.starts_with("Ok") };
         let (va, vb) = (valid(&m, &a), valid(&m, &b));
         let related = fa == fb && pa != pb && (pa.starts_with(pb) || pb.starts_with(pa));
         let rops = [(0u8, ia as u64, 0i64), (0u8, ib as u64, 0i64)];
@@ -1654,7 +1716,7 @@ fn main() {
     }
     if unit == "module_edit" {
         dispatch(unit, &[], 0);
-        println!("OK every ordered pair of 240 candidate indices: failed swaps left the module unchanged, successful ones undo themselves");
+        println!("OK 240 candidate indices: replace/replace-back, insert/remove, failed edits are no-ops, walk_cards agrees with get_card; every ordered pair: failed swaps left the module unchanged, successful ones undo themselves");
         return;
     }
     if unit == "cyclic_table" {
